@@ -244,6 +244,11 @@ Fixpoint ins_nat (x : nat) (l : list nat) : list nat :=
   match l with [] => [x] | y :: r => if x <? y then x :: y :: r else y :: ins_nat x r end.
 Definition sort_nat (l : list nat) : list nat := fold_left (fun acc x => ins_nat x acc) l [].
 
+Definition set_flags (s : state) (a p : bool) (st : Z) : state :=
+  {| ns := ns s; que := que s; paused := p; jobs := jobs s; cluster := cluster s;
+     busy := busy s; workers := workers s; archive := archive s; active := a;
+     stored := st; inflight := inflight s |}.
+
 (* one job of the `for j in _jobs.copy()` loop *)
 Definition put_job (c : cfg) (acc : state * list out) (x : node) : state * list out :=
   let '(s, o) := acc in
@@ -322,8 +327,14 @@ Definition dispatch (c : cfg) (s : state) : state * list out :=
   let cl := cluster_sort (cluster s3) in
   let w := workers_sort (workers s3) in
   let '(cl', w', b', fl', o2) := hand_out cl w (busy s3) (inflight s3) o1 in
-  (* notify_all with keep = True: every remaining hand gets the wait message *)
-  (set_farm s3 (jobs s3) cl' b' w' fl', o2 ++ map (fun p => OWait (fst p)) w').
+  (* notify_all: keep = is_pipeline_active().  The archiving trigger has just
+     taken the pipeline out of `running`: every remaining hand is told to
+     leave (abort response, connection closed, dropped from the idle list);
+     otherwise every remaining hand gets the wait message *)
+  if archive s2 && match jobs s2, busy s2, cluster s2 with [], [], [] => true | _, _, _ => false end
+  then (set_flags (set_farm s3 (jobs s3) cl' b' [] fl') false (paused s3) (stored s3),
+        o2 ++ map (fun p => OAbort (fst p)) w')
+  else (set_farm s3 (jobs s3) cl' b' w' fl', o2 ++ map (fun p => OWait (fst p)) w').
 
 (* ---- Hand._reg / status poll / connectionLost ---- *)
 Definition reg (w : wid) (host : nat) (rev_ok : bool) (s : state) : state * list out :=
@@ -359,11 +370,6 @@ Inductive ev :=
 | Pause (b : bool)
 | Stored (r : Z)
 | Build (changed : list node).
-
-Definition set_flags (s : state) (a p : bool) (st : Z) : state :=
-  {| ns := ns s; que := que s; paused := p; jobs := jobs s; cluster := cluster s;
-     busy := busy s; workers := workers s; archive := archive s; active := a;
-     stored := st; inflight := inflight s |}.
 
 Definition rm_inflight (w : wid) (x : node) (t : tgt) (fl : list (wid * msg)) : list (wid * msg) :=
   filter (fun p => negb (Nat.eqb (fst p) w && unit_eqb (msg_unit (snd p)) (x, t))) fl.
